@@ -30,8 +30,8 @@ class C05(Harness):
     stubs = (
         "wrapped regressor := recording stub (sklearn BaseEstimator + RegressorMixin, or sktime BaseRegressor); predict = uninterpreted function of the fitted-estimator id and the feature row",
     )
-    assumptions = ("no missing values in y / X", "one exogenous column when exogenous data are used")
-    outside = ("series longer than the stated n", "more than one exogenous column", "in-sample horizons (NotImplemented by design)")
+    assumptions = ("no missing values in y / X", "one or two exogenous columns when exogenous data are used")
+    outside = ("series longer than the stated n", "more than two exogenous columns", "in-sample horizons (NotImplemented by design)")
 
     def bounds(self, tier):
         q = tier == "quick"
@@ -47,6 +47,10 @@ class C05(Harness):
                         if sci == "time-series-regressor" and (exog or K > 2):
                             continue
                         out.append({"name": "%s-%s-%s-k%d" % (strat, "tab" if sci[0] == "t" and sci[1] == "a" else "tsr", "exog" if exog else "noexog", K), "kind": "reduce", "strategy": strat, "scitype": sci, "exog": exog, "K": K, "N": b["n_max"], "cost": K * (2 if exog else 1)})
+        # two exogenous columns (tabular and time-series regressors see [y lags, x1 lags, x2 lags])
+        for strat in ("direct", "multioutput", "recursive"):
+            for sci in ("tabular-regressor", "time-series-regressor"):
+                out.append({"name": "%s-%s-exog2-k%d" % (strat, "tab" if sci[0] == "t" and sci[1] == "a" else "tsr", 2 if strat == "direct" else 1), "kind": "reduce", "strategy": strat, "scitype": sci, "exog": True, "nx": 2, "K": 2 if strat == "direct" else 1, "N": min(b["n_max"], 5), "cost": 3})
         # integer-valued series (counts): the regressors' outputs are still arbitrary reals
         for strat in ("direct", "multioutput", "recursive", "dirrec"):
             out.append({"name": "%s-tab-noexog-int-k2" % strat, "kind": "reduce", "strategy": strat, "scitype": "tabular-regressor", "exog": False, "K": 2, "N": min(b["n_max"], 5), "int_series": True, "cost": 2})
@@ -67,10 +71,13 @@ class C05(Harness):
         ctx.assume(hs[-1] <= 4)
         inp = {"n": nn, "wl": int(wl), "fh": [int(h) for h in hs], "s0": ctx.fresh_int("s0"), "y": fresh_ints(ctx, "y", nn) if cell.get("int_series") else fresh_reals(ctx, "y", nn)}
         if cell["exog"]:
-            inp["x"] = fresh_reals(ctx, "x", nn)
-            inp["xf"] = fresh_reals(ctx, "xf", inp["fh"][-1])
+            nx = cell.get("nx", 1)
+            inp["xs"] = [fresh_reals(ctx, "x%s" % ("" if j == 0 else j), nn) for j in range(nx)]
+            inp["xfs"] = [fresh_reals(ctx, "xf%s" % ("" if j == 0 else j), inp["fh"][-1]) for j in range(nx)]
         else:
-            inp["u"] = (fresh_ints if cell.get("int_series") else fresh_reals)(ctx, "u", inp["fh"][-1] + 1)  # later observations for the moving-cutoff passes
+            # the recursive strategy does not need its horizon at fit: the moving-cutoff passes ask for other steps
+            inp["mfh"] = [h + 1 for h in inp["fh"]] if cell["strategy"] == "recursive" else list(inp["fh"])
+            inp["u"] = (fresh_ints if cell.get("int_series") else fresh_reals)(ctx, "u", inp["mfh"][-1] + 1)  # later observations for the moving-cutoff passes
         return inp
 
     # ------------------------------------------------------------------
@@ -123,7 +130,7 @@ class C05(Harness):
         n, s0 = inp["n"], inp["s0"]
         idx = pd.RangeIndex(s0, s0 + n)
         y = pd.Series(inp["y"], index=idx)
-        X = pd.DataFrame({"x": inp["x"]}, index=idx) if cell["exog"] else None
+        X = pd.DataFrame({"x%d" % j: col for j, col in enumerate(inp["xs"])}, index=idx) if cell["exog"] else None
         f = red.make_reduction(Stub(), strategy=cell["strategy"], window_length=inp["wl"], scitype=cell["scitype"])
         fh = np.array(inp["fh"])
         try:
@@ -133,7 +140,7 @@ class C05(Harness):
         fits = list(log)
         if cell["exog"] and cell["strategy"] == "recursive":
             hK = inp["fh"][-1]
-            Xf = pd.DataFrame({"x": inp["xf"]}, index=pd.RangeIndex(s0 + n, s0 + n + hK))
+            Xf = pd.DataFrame({"x%d" % j: col for j, col in enumerate(inp["xfs"])}, index=pd.RangeIndex(s0 + n, s0 + n + hK))
             pred = f.predict(fh, X=Xf)
         else:
             pred = f.predict()
@@ -147,10 +154,10 @@ class C05(Harness):
             yb = pd.Series(u, index=pd.RangeIndex(s0 + n, s0 + n + len(u)))
             passes = []
             for _ in range(2):
-                cv = sp.SlidingWindowSplitter(fh=fh, window_length=1, step_length=1, start_with_window=False)
+                cv = sp.SlidingWindowSplitter(fh=np.array(inp["mfh"]), window_length=1, step_length=1, start_with_window=False)
                 r = f.update_predict(yb, cv, update_params=False)
-                if len(inp["fh"]) == 1:
-                    passes.append([{"cutoff": lab - inp["fh"][0], "idx": [lab], "vals": [v]} for lab, v in zip(L(r.index), L(r.values))])
+                if len(inp["mfh"]) == 1:
+                    passes.append([{"cutoff": lab - inp["mfh"][0], "idx": [lab], "vals": [v]} for lab, v in zip(L(r.index), L(r.values))])
                 elif hasattr(r, "columns"):
                     passes.append([{"cutoff": S(c), "idx": None, "vals": L(r.iloc[:, j].values), "rows": L(r.index)} for j, c in enumerate(r.columns)])
                 else:
@@ -210,7 +217,8 @@ class C05(Harness):
         K, hK = len(fh), fh[-1]
         strat = cell["strategy"]
         exog = cell["exog"]
-        x = inp.get("x")
+        xcols = inp.get("xs") or []
+        nx = len(xcols)
         tsr = cell["scitype"] == "time-series-regressor"
         need = 1 if strat == "recursive" else hK
         fits_ok = wl + need <= n
@@ -229,10 +237,10 @@ class C05(Harness):
             """-> (list of y-lag values, list of x-lag values) of one training row"""
             if tsr:
                 ys = list(Xrow[0])
-                xs = list(Xrow[1]) if exog else []
+                xs = [list(Xrow[1 + j]) for j in range(nx)] if len(Xrow) == 1 + nx else None
             else:
                 ys = list(Xrow[:wl]) if not isinstance(Xrow[0], list) else list(Xrow[0])
-                xs = list(Xrow[wl : 2 * wl]) if exog else []
+                xs = [list(Xrow[wl * (1 + j) : wl * (2 + j)]) for j in range(nx)] if len(Xrow) == wl * (1 + nx) or strat == "dirrec" else None
                 if strat == "dirrec":
                     ys = list(Xrow)
             return ys, xs
@@ -245,15 +253,18 @@ class C05(Harness):
             for r in range(rows):
                 ys, xs = feat_row(X[r])
                 extra = e if strat == "dirrec" else 0
-                P.check("n-rows", len(ys) == wl + extra and len(xs) == (wl if exog else 0))
+                P.check("n-rows", len(ys) == wl + extra and xs is not None and all(len(c) == wl for c in xs))
+                if xs is None:
+                    continue
                 if len(ys) != wl + extra:
                     continue
                 for j in range(wl):
                     P.eq("feature-is-lag", ys[j], y[r + j])
                 for j in range(extra):  # dirrec: the true values of the earlier requested steps are the newest lags
                     P.eq("feature-is-lag", ys[wl + j], y[r + wl + fh[j] - 1])
-                for j, v in enumerate(xs):
-                    P.eq("exog-feature-is-lag", v, x[r + j])
+                for cj, col in enumerate(xs):
+                    for j, v in enumerate(col):
+                        P.eq("exog-feature-is-lag", v, xcols[cj][r + j], {"column": cj})
                 # targets
                 if strat in ("direct", "dirrec"):
                     tpos = [r + wl + fh[e] - 1]
@@ -278,9 +289,9 @@ class C05(Harness):
         for lab, h in zip(out["index"], fh):
             P.eq("index", lab, c + h)
         win = list(y[n - wl :])
-        xwin = list(x[n - wl :]) if exog else []
+        xwin = [v for col in xcols for v in col[n - wl :]]
         vals = out["values"]
-        nf = lambda k: (wl * (2 if exog else 1)) + k  # noqa
+        nf = lambda k: (wl * (1 + nx)) + k  # noqa
         if "passes" in out:
             self._moving(P, inp, out, cell)
         if strat == "direct":
@@ -291,10 +302,10 @@ class C05(Harness):
                 P.eq("forecast-is-regressor-output", vals[k], self._uf("reg1_out%d_%d" % (k, nf(0)), win + xwin))
         elif strat == "recursive":
             seq = list(win)
-            xs_all = (list(x[n - wl :]) + list(inp["xf"])) if exog else []
+            xs_all = [list(col[n - wl :]) + list(fut) for col, fut in zip(xcols, inp.get("xfs") or [])]
             outs = []
             for i in range(hK):
-                feats = seq[i : i + wl] + (xs_all[i : i + wl] if exog else [])
+                feats = seq[i : i + wl] + [v for col in xs_all for v in col[i : i + wl]]
                 o = self._uf("reg1_%d" % nf(0), feats)
                 outs.append(o)
                 seq.append(o)
@@ -329,7 +340,7 @@ class C05(Harness):
         return res
 
     def _moving(self, P, inp, out, cell):
-        n, wl, fh, s0 = inp["n"], inp["wl"], inp["fh"], inp["s0"]
+        n, wl, fh, s0 = inp["n"], inp["wl"], inp["mfh"], inp["s0"]
         data = list(inp["y"]) + list(inp["u"])
         K = len(fh)
         p1, p2 = out["passes"]
